@@ -703,5 +703,6 @@ func main() {
 		"dynsampler state is pre-loaded through LoadState, or by setting the saved-rate map where the library implements LoadState as a no-op (TotalThroughput, WindowedThroughput); adjustment tickers (24h) never fire")
 	r.Assume("the keep draw is the process-global math/rand stream, owned by re-seeding (GODEBUG randseednop=0) right before the deciding handler call; the product is enumerated on one goroutine")
 	r.Assume("whether a span is forwarded at all (kept: exactly once, dropped: never) is C01/C02's subject; unforwarded spans of kept traces are counted in the evidence and abort the run as a harness error on a clean run, they are not C04 violations")
+	cx.RunLiveToggle(r) // DryRun reloaded to off on the real goroutines: rates compose again (fix/collector/cx/c05_toggle.go)
 	r.Finish()
 }
